@@ -23,6 +23,18 @@ impl TypeRegistry {
         self.pointer_size
     }
 
+    /// Fails if `address` cannot be represented in a pointer of the configured size
+    pub(crate) fn ensure_address_fits(&self, address: usize, what: &str) -> anyhow::Result<()> {
+        let bits = self.pointer_size.saturating_mul(8);
+        if bits < usize::BITS as usize && (address >> bits) != 0 {
+            anyhow::bail!(
+                "address 0x{address:X} of {what} does not fit in a pointer of {} bytes",
+                self.pointer_size
+            );
+        }
+        Ok(())
+    }
+
     /// The number of registered items (including predefined and generated ones)
     pub(crate) fn len(&self) -> usize {
         self.types.len()
